@@ -23,6 +23,7 @@ pub enum Ty {
     RS,
     ArcLA,
     ArcRA,
+    ArcLS,
     DirLA,
     DirLAB,
     DirLE,
@@ -31,7 +32,7 @@ pub enum Ty {
     RDirLAB,
 }
 pub const LEAVES: [Ty; 9] = [Ty::LA, Ty::LAB, Ty::LBC, Ty::LABC, Ty::LNone, Ty::LNoneNoDef, Ty::LDef, Ty::LE, Ty::LS];
-pub const ALL_TYS: [Ty; 20] = [Ty::LA, Ty::LAB, Ty::LBC, Ty::LABC, Ty::LNone, Ty::LNoneNoDef, Ty::LDef, Ty::LE, Ty::LS, Ty::RA, Ty::RB, Ty::RS, Ty::ArcLA, Ty::ArcRA, Ty::DirLA, Ty::DirLAB, Ty::DirLE, Ty::DirArcLA, Ty::RDirLA, Ty::RDirLAB];
+pub const ALL_TYS: [Ty; 21] = [Ty::LA, Ty::LAB, Ty::LBC, Ty::LABC, Ty::LNone, Ty::LNoneNoDef, Ty::LDef, Ty::LE, Ty::LS, Ty::RA, Ty::RB, Ty::RS, Ty::ArcLA, Ty::ArcRA, Ty::ArcLS, Ty::DirLA, Ty::DirLAB, Ty::DirLE, Ty::DirArcLA, Ty::RDirLA, Ty::RDirLAB];
 #[derive(Clone, Copy, Debug, PartialEq, Eq)]
 pub enum Kind {
     Leaf,
@@ -42,7 +43,7 @@ pub enum Kind {
 impl Ty {
     /// `HOT_RELOADED` of the Rust type
     pub fn hot(self) -> bool {
-        !matches!(self, Ty::LS | Ty::RS)
+        !matches!(self, Ty::LS | Ty::RS | Ty::ArcLS)
     }
     pub fn kind(self) -> Kind {
         match self {
@@ -55,7 +56,7 @@ impl Ty {
     /// extension list of the leaf type (for Dir types: of the element type)
     pub fn exts(self) -> &'static [&'static str] {
         match self {
-            Ty::LA | Ty::LS | Ty::ArcLA | Ty::DirLA | Ty::DirArcLA | Ty::RDirLA => &["a"],
+            Ty::LA | Ty::LS | Ty::ArcLA | Ty::ArcLS | Ty::DirLA | Ty::DirArcLA | Ty::RDirLA => &["a"],
             Ty::LAB | Ty::LDef | Ty::DirLAB | Ty::RDirLAB => &["a", "b"],
             Ty::LBC => &["b", "c"],
             Ty::LABC => &["a", "b", "c"],
@@ -143,22 +144,33 @@ pub fn class_of(r: &(dyn std::error::Error + 'static)) -> String {
 
 pub trait Shown: Compound {
     fn show(&self) -> String;
+    /// ids of the tracked values this value owns
+    fn tids(&self) -> Vec<u64>;
 }
-macro_rules! leaf_shown { ($($t:ident),*) => { $( impl Shown for $t { fn show(&self) -> String { self.0.show() } } )* } }
+macro_rules! leaf_shown { ($($t:ident),*) => { $( impl Shown for $t { fn show(&self) -> String { self.0.show() } fn tids(&self) -> Vec<u64> { vec![self.0.t.id] } } )* } }
 leaf_shown!(LA, LAB, LBC, LABC, LNone, LNoneNoDef, LDef, LE, LS);
 impl<T: Shown> Shown for Arc<T> {
     fn show(&self) -> String {
         (**self).show()
+    }
+    fn tids(&self) -> Vec<u64> {
+        (**self).tids()
     }
 }
 impl<T: assets_manager::asset::DirLoadable> Shown for Directory<T> {
     fn show(&self) -> String {
         format!("D[{}]", self.ids().map(|s| s.to_string()).collect::<Vec<_>>().join(","))
     }
+    fn tids(&self) -> Vec<u64> {
+        vec![]
+    }
 }
 impl<T: assets_manager::asset::DirLoadable> Shown for RecursiveDirectory<T> {
     fn show(&self) -> String {
         format!("RD[{}]", self.ids().map(|s| s.to_string()).collect::<Vec<_>>().join(","))
+    }
+    fn tids(&self) -> Vec<u64> {
+        vec![]
     }
 }
 macro_rules! rec_type {
@@ -174,6 +186,9 @@ macro_rules! rec_type {
         impl Shown for $name {
             fn show(&self) -> String {
                 self.0.show()
+            }
+            fn tids(&self) -> Vec<u64> {
+                vec![self.0.t.id]
             }
         }
     };
@@ -202,6 +217,7 @@ macro_rules! with_ty {
             $crate::recipe::Ty::RS => { type $T = $crate::recipe::RS; $body }
             $crate::recipe::Ty::ArcLA => { type $T = std::sync::Arc<$crate::world::LA>; $body }
             $crate::recipe::Ty::ArcRA => { type $T = std::sync::Arc<$crate::recipe::RA>; $body }
+            $crate::recipe::Ty::ArcLS => { type $T = std::sync::Arc<$crate::world::LS>; $body }
             $crate::recipe::Ty::DirLA => { type $T = assets_manager::Directory<$crate::world::LA>; $body }
             $crate::recipe::Ty::DirLAB => { type $T = assets_manager::Directory<$crate::world::LAB>; $body }
             $crate::recipe::Ty::DirLE => { type $T = assets_manager::Directory<$crate::world::LE>; $body }
@@ -223,6 +239,9 @@ pub fn any_cached(cache: AnyCache, ty: Ty, id: &str) -> Option<String> {
 }
 pub fn any_contains(cache: AnyCache, ty: Ty, id: &str) -> bool {
     with_ty!(ty, T, cache.contains::<T>(id))
+}
+pub fn any_tids(cache: AnyCache, ty: Ty, id: &str) -> Option<Vec<u64>> {
+    with_ty!(ty, T, cache.get_cached::<T>(id).map(|h| h.read().tids()))
 }
 /// (value, reload id, handle address) of a cached asset
 pub fn any_peek(cache: AnyCache, ty: Ty, id: &str) -> Option<(String, usize, usize)> {
